@@ -15,7 +15,7 @@ echo "demo rc with change=$RC_WITH without=$RC_WITHOUT"
 git diff > $OUT/patch.diff
 cp _seed/demo.py $OUT/demo.py
 cd /verif
-VF_REPO=$WT ./check $P --tier $TIER --no-evidence $ONLY > /tmp/seed-$NAME-check.txt 2>&1; RC=$?
+VF_REPO=$WT timeout ${SEED_TIMEOUT:-1500} ./check $P --tier $TIER --no-evidence $ONLY > /tmp/seed-$NAME-check.txt 2>&1; RC=$?
 grep -E "VIOLATION|HARNESS|INCONCL| quick:| thorough:" /tmp/seed-$NAME-check.txt | cut -c1-220
 CAUGHT=$(grep -c "^VIOLATION" /tmp/seed-$NAME-check.txt)
 python3 - "$P" "$WT" "$NAME" "$T" "$RC_WITH" "$RC_WITHOUT" "$RC" "$CAUGHT" "$TIER" <<'PY'
